@@ -401,7 +401,8 @@ def gen_pep(rng, cfg: GenCfg) -> Pep:
                 break
             k = min(len(cands), rng.choice([1, 1, 2, 3]))
             targets = rng.sample(cands, k)
-            used.update(targets)
+            if rng.random() < 0.6:
+                used.update(targets)    # otherwise a later rule may name the same target again (rules accumulate)
             mods = gen_mods(rng, cfg, context='<>', allow_mult=False, weights=cfg.static_weights or cfg.weights)
             p.static.append(Rule(mods, targets))
     if rng.random() < cfg.p_isotope and cfg.labels:
